@@ -237,6 +237,18 @@ class Exec(CallsMixin):
             self.oos("attribute assignment on a non-object", node)
         if isinstance(target, ast.Subscript):
             recv = self.eval(target.value, st)
+            sa = self.opts.get("site_asserts", {}).get(ast.unparse(target.value) + "[]")
+            if sa is not None and self.depth == 0:
+                from .contracts import Clause
+                cl = Clause("site_" + ast.unparse(target.value) + "_store", sa, "ensures")
+                bound = dict(st.vars)
+                bound["arg0"] = self.eval(target.slice, st)
+                goal = self.eval_clause(cl, bound, st, self.entry_pre, {})
+                nm_ = ast.unparse(target.value) + "[]"
+                k_ = sum(1 for o in self.obligations if f"::site:{nm_}" in o.id)
+                g_ = self.guard_cond()
+                self.obligations.append(Obligation(f"{getattr(self, 'fn_site', self.fn_qual)}::site:{nm_}#{k_}", "assert",
+                                                   list(st.pc) + ([g_] if g_ is not None else []), goal, {"line": getattr(node, "lineno", 0), "clause": cl.name}))
             if isinstance(recv, Ref):
                 c = st.cell(recv)
                 if c.frozen:
